@@ -152,7 +152,7 @@ def parseOp : List String → Option Op
     | _, _, _, _ => none
   | "snap" :: rest =>
     match parseSnapItems rest with
-    | some [] => none
+    -- an account snapshot without balances is legal (a fresh account): no event reaches the summary
     | some items => some (.snap items)
     | none => none
   | ["gen", iv] => (parseIv? iv).map (.gen · true)
